@@ -21,6 +21,10 @@ CANARIES = {
     'default-scope-no-ext-of-ext': ('wn._core', "                | set(get_lexicon_extensions(self._lexid))",
                                     "                | (set(get_lexicon_extensions(self._lexid))\n"
                                     "                   if not get_lexicon_extension_bases(self._lexid) else set())"),
+    'synset-hash-by-wordnet': ('wn._core', "        return hash((self._ENTITY_TYPE, self._ili, self._lexid, self._id))",
+                               "        return hash((self._ENTITY_TYPE, self._ili, self._lexid, self._id,\n"
+                               "                     self._wordnet._lexicon_ids))"),
+    'relation-eq-ignores-lexicon': ('wn._core', "            and self._lexicon == other._lexicon\n", ""),
 }
 rt.setup(canaries=CANARIES)
 
@@ -102,6 +106,48 @@ def h_table(e1: str, e2: str, ss1: str, ss2: str, own2: bool, sel: int, sense_on
     return rt.verdict(ok)
 
 
+def _entity(kind, rowid, lexid, ident, ili, w):
+    if kind == 0:
+        return _core.Word(ident, 'n', [('f', None, None, 1)], _lexid=lexid, _id=rowid, _wordnet=w)
+    if kind == 1:
+        return _core.Sense(ident, 'e', 's', _lexid=lexid, _id=rowid, _wordnet=w)
+    return _core.Synset(ident, 'n', ili=ili, _lexid=lexid, _id=rowid, _wordnet=w)
+
+
+def h_eqhash(ka: int, kb: int, ra: int, rb: int, la: int, lb: int, ia: str, ib: str,
+             na: str, nb: str, wsame: bool) -> bool:
+    """
+    pre: 0 <= ka <= 2 and 0 <= kb <= 2 and 1 <= ra <= 3 and 1 <= rb <= 3
+    pre: 1 <= la <= 2 and 1 <= lb <= 2 and len(ia) <= 1 and len(ib) <= 1
+    pre: len(na) == 1 and len(nb) == 1
+    pre: not (ka == kb and ra == rb) or (la == lb and ia == ib and na == nb)
+    post: _
+    """
+    # Two entity objects as the query layer builds them from rows: kind, rowid, owning
+    # lexicon, id string and ILI symbolic.  The only assumption is the functional dependency
+    # of the tables (same table and rowid => same columns).  The two objects come from
+    # different Wordnet objects (different selections) unless wsame.
+    w1 = _mkwn((1, 2))
+    w2 = w1 if wsame else _mkwn((2,))
+    a = _entity(ka, ra, la, na, ia or None, w1)
+    b = _entity(kb, rb, lb, nb, ib or None, w2)
+    same = ka == kb and ra == rb
+    ok = (a == b) == same and (b == a) == same and (a != b) == (not same)
+    ok = ok and a == a and a.__hash__() == a.__hash__()
+    if same:
+        ok = ok and a.__hash__() == b.__hash__()
+        ok = ok and (a in [b]) and [a].index(b) == 0
+    # relations as value objects: equal exactly when all five identifying fields agree
+    r1 = _core.Relation('hypernym', na, nb, 'L:1', metadata=({'type': ia} if ia else None))
+    r2 = _core.Relation('hypernym', nb, na, 'L:1' if la == lb else 'M:1',
+                        metadata=({'type': ib} if ib else None))
+    rsame = na == nb and la == lb and (ia or None) == (ib or None)
+    ok = ok and (r1 == r2) == rsame
+    if rsame:
+        ok = ok and r1.__hash__() == r2.__hash__()
+    return rt.verdict(ok)
+
+
 ILIS = ['i1', 'i2', '', 'in']
 SELECTIONS = [None, 'A:1', 'A:1 X:1', 'A:1 B:1', 'B:1 A:1', 'X:1', 'C:1', 'A:1 X:1 XX:1']
 
@@ -171,6 +217,9 @@ def h_navigate(ka: int, kb: int, ksel: int) -> bool:
     scope = [lx.id for lx in w.lexicons()]
     ok = True
     senses = w.senses()
+    everything = wn.Wordnet()
+    direct = {x._id: x for x in everything.synsets()}
+    dsense = {x._id: x for x in everything.senses()}
     ok = ok and sorted((s.lexicon().id, s.id) for s in senses) == \
         sorted(k for k in home if k[0] in scope)
     for s in senses:
@@ -182,6 +231,15 @@ def h_navigate(ka: int, kb: int, ksel: int) -> bool:
         ok = ok and s in wd.senses() and s in ss.senses()
         ok = ok and [x.id for x in wd.synsets()] == [x.synset().id for x in wd.senses()]
         ok = ok and [x.id for x in ss.words()] == [x.word().id for x in ss.senses()]
+        # every object the query layer builds carries the columns of its row, whatever the
+        # route (discharges the functional-dependency assumption of eq-hash): a synset
+        # reached over a relation equals, and hashes like, the one listed directly
+        for t in ss.get_related():
+            d = direct.get(t._id)
+            ok = ok and d is not None and t == d and t._lexid == d._lexid \
+                and t._ili == d._ili and t.id == d.id and t.__hash__() == d.__hash__()
+        for t in s.get_related():
+            ok = ok and t._lexid == dsense[t._id]._lexid and t.id == dsense[t._id].id
     return rt.verdict(ok)
 
 
@@ -254,6 +312,17 @@ OBLIGATIONS = [
                 'coincide across lexicons), owner of the second entry/synset, which lexicons are '
                 'selected, where the second sense is attached',
        bounds='2 lexicons, 2 entries, 2 synsets, 2 senses'),
+    Ob('eq-hash', 'h_eqhash', quick=dict(timeout=200), thorough=dict(timeout=900),
+       canary=[('synset-hash-by-wordnet', 0), ('relation-eq-ignores-lexicon', 0)],
+       functions=['wn._core._DatabaseEntity.__eq__/__hash__', 'wn._core.Synset.__hash__',
+                  'wn._core.Relation.__eq__/__hash__/subtype'],
+       stubs=['builtin hash inside wn._core = vf.transforms._plain_hash (structural model: '
+              'deterministic in the value, injective on the hashed tuples); no database'],
+       symbolic='kind (Word/Sense/Synset), rowid (1..3), owning lexicon rowid, id string '
+                '(1 char), ILI (0-1 char) of two entity objects; same or different Wordnet '
+                'object; relation endpoints, lexicon and dc:type',
+       bounds='2 entity objects + 2 relation objects; assumption: same table and rowid => '
+              'same column values'),
     Ob('navigation-documents', 'h_navigate', parts=8, quick=dict(timeout=200),
        thorough=dict(timeout=900),
        canary=[('members-own-lexicon-only', 2), ('default-scope-no-ext-of-ext', 0)], functions=_F,
